@@ -13,15 +13,24 @@
 
   Extras must be encodable and nest at most 99 deep at struct level, 98 inside a
   V2 block (go-codec's depth limit, `C15_codec_depth_limit`).
-  NOT proved: agreement of the two readers on every byte string where `Wire`
-  answers (non-canonical encodings: wide lengths, str-for-bin, … are tied by the
-  correspondence stream `codec.list.*` only); and `Wire` hands packets to the
-  views for header majors other than 1, 2 where `Codec` reads none (both are
-  refused by every receiver before any packet is looked at).
+  Since repair R1 the front end asks `Codec` FIRST; the bridge is what lets the
+  older `Wire`-based byte theorems (round trips, C08, C09 acceptance) speak about
+  the front end: `C01/C03/C05/C07_roundtrip_bytes_front`, `C15_front_reads_sealed_*`.
+  `C09_bridge_signcrypt_extras` (audit finding #10): the bridge WITH reserved extras
+  at the end of the header and of every packet, for signcryption.
+  The two readers do NOT agree on every byte string where `Wire` answers — refuted
+  by the audit (a reserved extra nested beyond go-codec's depth budget: `Wire`
+  accepts, go-codec and `Codec` refuse; a type error left of a truncation: `Wire`
+  reports the truncation, go-codec and `Codec` the type error), which is why
+  `Wire` is no longer asked first.  NOT proved: the bridge with extras for the
+  other modes, for extras INSIDE the version pair / a recipient pair of a full
+  message, and for non-canonical encodings (wide lengths, str-for-bin, …: tied by
+  the correspondence streams `codec.list.*`, `deep.*` only).
 
   Statements only; proofs in Saltpack/Proofs/CodecBytesCanon.lean, CodecBytesBridge.lean.
 -/
 import Saltpack.Proofs.CodecBytesBridge
+import Saltpack.Proofs.CodecBytesBridgeExtras
 import Saltpack.Toy
 
 namespace Saltpack.Props.C09
@@ -140,6 +149,31 @@ theorem C09_bridge_detached (h : SigHeader) (s : SigHeaderSized h) (sg : Bytes) 
     Codec.splitDetached (headerPacket (encode h.toVal) ++ encBin sg) = .ok (.ok (encode h.toVal) h, .sig sg) :=
   bridge_detached h s sg hsg
 
+/-- **Bridge WITH reserved extras, signcryption** (audit finding #10).  The header
+    array carries extra trailing elements `exH`, every packet `[ctext, final]` its
+    own extras — all encodable and nested at most 99 deep (go-codec's budget; one
+    level deeper go-codec refuses the message).  The spec-shaped reader, go-codec's
+    typed reader and the front end give the same header read (header bytes = the
+    bytes WITH extras) and exactly the packets, clean end. -/
+theorem C09_bridge_signcrypt_extras (h : EncHeader) (s : EncHeaderSized h) (exH : List Val) (hexH : TopExtras exH)
+    (hlenH : exH.length + 6 < 2 ^ 32) (hbytes : (encode (encHeaderValEx h exH)).length < 2 ^ 32)
+    (pk : List (SigncryptBlock × List Val))
+    (hpk : ∀ p ∈ pk, p.1.ct.length < 2 ^ 32 ∧ TopExtras p.2 ∧ p.2.length + 2 < 2 ^ 32) :
+    Wire.splitSigncrypt (headerPacket (encode (encHeaderValEx h exH)) ++ (pk.map scPacketValEx).flatMap encode) =
+      .ok (.ok (encode (encHeaderValEx h exH)) h, ⟨(pk.map (·.1)).map some, .eof⟩) ∧
+    Codec.splitSigncrypt (headerPacket (encode (encHeaderValEx h exH)) ++ (pk.map scPacketValEx).flatMap encode) =
+      .ok (.ok (encode (encHeaderValEx h exH)) h, ⟨(pk.map (·.1)).map some, .eof⟩) ∧
+    Front.readSigncrypt (headerPacket (encode (encHeaderValEx h exH)) ++ (pk.map scPacketValEx).flatMap encode) =
+      .ok (.ok (encode (encHeaderValEx h exH)) h, ⟨(pk.map (·.1)).map some, .eof⟩) :=
+  bridge_signcrypt_extras h s exH hexH hlenH hbytes pk hpk
+
+/-- `encHeaderValEx`, `scPacketValEx` spelled out -/
+theorem C09_extras_vals_def (h : EncHeader) (ex : List Val) (p : SigncryptBlock × List Val) :
+    encHeaderValEx h ex = .arr ([.str h.formatName, h.version.toVal, .int h.typ, .bin h.ephemeral, .bin h.senderSecretbox,
+      .arr (h.receivers.map RecvKeys.toVal)] ++ ex) ∧
+    scPacketValEx p = .arr ([.bin p.1.ct, .bool p.1.final] ++ p.2) :=
+  ⟨rfl, rfl⟩
+
 /-- **Genuine sender output, encryption**: what `Encrypt.sealWith` emits (any
     primitives with the wire sizes, any recipients, chunk size, plaintext) is read
     identically by both readers -/
@@ -177,7 +211,8 @@ theorem C09_bridge_seal_detached (P : Prims) (hS : WireSizes P) (v : Version) (s
     ∃ hb h sg, Wire.splitDetached out = .ok (.ok hb h, .sig sg) ∧ Codec.splitDetached out = .ok (.ok hb h, .sig sg) :=
   bridge_seal_detached P hS v signer nonce msg out hn hout
 
-/-- so on a sealed encryption message the byte-level front end IS that common answer -/
+/-- so on a sealed encryption message the byte-level front end (Codec first) IS that common answer
+    (all four modes: `C15_front_reads_sealed_*`; the receivers' results: `C01/C03/C05/C07_roundtrip_bytes_front`) -/
 theorem C09_front_on_sealed_enc (P : Prims) (hS : WireSizes P) (bs : Nat) (hbs : 0 < bs) (hbs32 : bs + 16 < 2 ^ 32)
     (v : Version) (sender : Option Bytes) (rs : List Encrypt.Recipient) (eph pk pt : Bytes)
     (hpk : pk.length + 16 < 2 ^ 32) (hpub : ∀ r ∈ rs, r.pub.length < 2 ^ 32)
@@ -185,7 +220,7 @@ theorem C09_front_on_sealed_enc (P : Prims) (hS : WireSizes P) (bs : Nat) (hbs :
     (hs : Encrypt.sealPackets P bs v sender rs eph pk pt = .ok (h, hb, blks))
     (he : Encrypt.encodeBlocks v blks = .ok body) (hhb : hb.length < 2 ^ 32) :
     Front.readEnc (headerPacket hb ++ body) = .ok (.ok hb h, ⟨(blks.map (encAsRead v)).map some, .eof⟩) :=
-  orCodec_of_wire (bridge_seal_enc P hS bs hbs hbs32 v sender rs eph pk pt hpk hpub h hb blks body hs he hhb).1
+  readEnc_of_codec_eof (bridge_seal_enc P hS bs hbs hbs32 v sender rs eph pk pt hpk hpub h hb blks body hs he hhb).2
 
 /-! ## non-vacuity (kernel-evaluated) -/
 
@@ -198,6 +233,11 @@ example : decEncBlockV2 (encode (.arr ([.bool true, authsVal [List.replicate 32 
 /-- a signature header with an extra element -/
 example : decSigHeader (encode (.arr ([.str Gen.c_sp_FormatName, v2.toVal, .int mtAttached, .bin [1], .bin [2]] ++ [.str [120]])))
     = .ok (Sign.header v2 [1] mtAttached [2], []) := by decide
+
+/-- a signcryption message with an extra in the header and a nested extra in its packet: the front end reads it -/
+example : (Front.readSigncrypt (headerPacket (encode (encHeaderValEx ⟨Gen.c_sp_FormatName, v2, mtSigncryption, [1], [2], []⟩ [.int 7])) ++
+      encode (scPacketValEx (⟨[9], true⟩, [.arr [.arr [.str [120]]]])))).toOption.map (fun x => (x.2.items, x.2.tail)) =
+    some ([some ⟨[9], true⟩], .eof) := by decide
 
 /-- the hypothesis "32-byte authenticators" cannot go: a 3-byte authenticator is
     zero-padded by go-codec, so the decoder does NOT return the sender's field -/
